@@ -155,6 +155,28 @@ class HeapFn(cxx2gal.LoopFn):
             self.uses_this = True
         return "this_"
 
+    def incdec(self, n, k):
+        op = n["opcode"]
+        post = bool(n.get("isPostfix"))
+        x = self.inner(n)[0]
+
+        def with_lv(lv):
+            if lv[0] != "cell":
+                return None
+            if self.coqtype_of(lv[2]) == "hptr":
+                raise Unsupported("++/-- on a record pointer held in an object")
+            self.stores = True
+            old, new = self.tmp("v"), self.tmp("v")
+            return ("(match hload_int mem %s with None => Oob | Some %s => let %s := %s in match hstore mem %s (VInt %s) with None => Oob | Some mem => %s end end)"
+                    % (lv[1], old, new, self.wrap_type(lv[2], "(%s %s 1)" % (old, "+" if op == "++" else "-")), lv[1], new,
+                       k(old if post else new, lv)))
+        xs = x
+        while xs.get("kind") in SKIP:
+            xs = self.inner(xs)[0]
+        if xs.get("kind") in ("MemberExpr", "ArraySubscriptExpr") or (xs.get("kind") == "UnaryOperator" and xs.get("opcode") == "*"):
+            return self.L(x, with_lv)
+        return super().incdec(n, k)
+
     def rvalue(self, lv, k):
         if lv[0] == "var":
             return k(lv[1])
@@ -399,15 +421,18 @@ class HeapTranslator(cxx2coq.Translator):
     def __init__(self, repo, records):
         super().__init__(repo)
         self.layouts = {}
-        for rec, path in records:
-            self.layouts[rec] = self.record_layout(path, rec)
+        # a third component "own" = model only the members the class declares itself (its base sub-object is not touched by the
+        # translated functions)
+        self.own_fields_only = set(r[0] for r in records if len(r) > 2 and r[2] == "own")
+        for r in records:
+            self.layouts[r[0]] = self.record_layout(r[1], r[0])
 
     def record_layout(self, path, rec):
         """[(field, type)] of the data members of class `rec`, in declaration order, read from clang's AST"""
         docs = cxx2coq.clang_docs(self.repo, path, rec)
         for d in docs:
             if d.get("kind") == "CXXRecordDecl" and d.get("name") == rec and d.get("completeDefinition"):
-                if any(b for b in d.get("bases", [])):
+                if any(b for b in d.get("bases", [])) and rec not in self.own_fields_only:
                     bases = [self_t.get("type", {}).get("qualType") for self_t in d.get("bases", [])]
                     raise Unsupported("record %s has base classes %s" % (rec, bases))
                 out = []
